@@ -212,6 +212,17 @@ func cmdCheck(argv []string) int {
 	slowLogMs = *slow
 	defer func() {}()
 
+	if forkProfile { // periodic fork profile
+		go func() {
+			for {
+				time.Sleep(60 * time.Second)
+				forkMu.Lock()
+				dumpForkProfile()
+				forkMu.Unlock()
+				fmt.Fprintln(os.Stderr, "----")
+			}
+		}()
+	}
 	debug.SetGCPercent(200)
 	t0 := time.Now()
 	eng := &Engine{solverKind: *solver, timeoutMs: *timeout, unwind: *unwind, workers: *workers, maxPaths: *maxPaths,
@@ -316,6 +327,7 @@ func cmdCheck(argv []string) int {
 		hr := eng.runHarness(h)
 		m := hr.toJSON()
 		rep.Harnesses = append(rep.Harnesses, m)
+		dumpForkProfile()
 		st := "ok"
 		if len(hr.Violations) > 0 {
 			st = "VIOLATIONS"
